@@ -12,24 +12,69 @@ use proptest::strategy::ValueTree;
 use proptest::test_runner::{Config, RngAlgorithm, TestRng, TestRunner};
 use serde_json::Value;
 
-/// Thin convenience layer over proptest's TestRng.
+/// Source of every generator decision: proptest's seeded TestRng, or - for the
+/// coverage-guided stage - the bytes handed over by libFuzzer (small choices
+/// consume one byte so that byte-level mutation maps to structural mutation;
+/// when the bytes run out a counter-driven splitmix64 tail, itself a function
+/// of the input, keeps every generator loop finite).
+pub enum Src {
+    Rng(TestRng),
+    Bytes { data: Vec<u8>, pos: usize, ctr: u64 },
+}
+
 pub struct G {
-    pub rng: TestRng,
+    src: Src,
+}
+
+fn splitmix(mut z: u64) -> u64 {
+    z = z.wrapping_add(0x9E3779B97F4A7C15);
+    z = (z ^ (z >> 30)).wrapping_mul(0xBF58476D1CE4E5B9);
+    z = (z ^ (z >> 27)).wrapping_mul(0x94D049BB133111EB);
+    z ^ (z >> 31)
 }
 
 impl G {
     pub fn new(rng: TestRng) -> G {
-        G { rng }
+        G { src: Src::Rng(rng) }
+    }
+    pub fn from_bytes(data: &[u8]) -> G {
+        let ctr = data.iter().fold(0xcbf29ce484222325u64, |h, b| (h ^ *b as u64).wrapping_mul(0x100000001b3));
+        G { src: Src::Bytes { data: data.to_vec(), pos: 0, ctr } }
+    }
+    fn take(&mut self, n: usize) -> u64 {
+        match &mut self.src {
+            Src::Rng(r) => r.next_u64(),
+            Src::Bytes { data, pos, ctr } => {
+                if *pos + n <= data.len() {
+                    let mut x = 0u64;
+                    for b in &data[*pos..*pos + n] {
+                        x = (x << 8) | *b as u64;
+                    }
+                    *pos += n;
+                    x
+                } else {
+                    *pos = data.len();
+                    *ctr = ctr.wrapping_add(1);
+                    splitmix(*ctr)
+                }
+            }
+        }
     }
     pub fn u64(&mut self) -> u64 {
-        self.rng.next_u64()
+        self.take(8)
     }
     /// uniform in 0..n (n > 0)
     pub fn below(&mut self, n: usize) -> usize {
         if n <= 1 {
             return 0;
         }
-        (self.u64() % n as u64) as usize
+        let width = match &self.src {
+            Src::Rng(_) => 8,
+            Src::Bytes { .. } if n <= 256 => 1,
+            Src::Bytes { .. } if n <= 65536 => 2,
+            Src::Bytes { .. } => 8,
+        };
+        (self.take(width) % n as u64) as usize
     }
     /// inclusive range
     pub fn range(&mut self, lo: i64, hi: i64) -> i64 {
